@@ -111,7 +111,7 @@ def ensure(variant='plain'):
         lock.close()
 
 
-def _prune(keep, maxkeep=6):
+def _prune(keep, maxkeep=14):
     entries = []
     for name in os.listdir(BUILD_ROOT):
         full = os.path.join(BUILD_ROOT, name)
